@@ -592,13 +592,20 @@ func checkC19Conc(c *C19ConcCase) Result {
 	var bodies [][]byte
 	var bmu sync.Mutex
 	if c.Writer == "HTTPS" {
-		srv := httptest.NewServer(http.HandlerFunc(func(rw http.ResponseWriter, r *http.Request) {
-			b, _ := io.ReadAll(r.Body)
-			bmu.Lock()
-			bodies = append(bodies, b)
-			bmu.Unlock()
-			rw.WriteHeader(200)
-		}))
+		var srv *httptest.Server
+		if f := guard("collector", func() {
+			srv = httptest.NewServer(http.HandlerFunc(func(rw http.ResponseWriter, r *http.Request) {
+				b, _ := io.ReadAll(r.Body)
+				bmu.Lock()
+				bodies = append(bodies, b)
+				bmu.Unlock()
+				rw.WriteHeader(200)
+			}))
+		}); f != nil {
+			// no free port for the collector: nothing was learnt
+			res.Labels = append(res.Labels, "infrastructure:no-free-port")
+			return res
+		}
 		defer srv.Close()
 		target = srv.URL + "/audit"
 	}
